@@ -1,22 +1,54 @@
 import CollectionsC.Proofs.SListStep
 /-! Induction over histories, shared by the two list models: a step function that refines the
-ideal step (in the sense of `StepSpec`) refines ideal histories. -/
+ideal step (in the sense of `StepRefines`) refines ideal histories.  The two lists of a pair may sit
+on different allocator triples; the ledger invariant says that each triple's `live` counter covers
+the node blocks of the lists on that triple. -/
 namespace CC.ListHistory
 open CC CC.Chain
 open CC.Spec
 open CC.Spec.LSeq (Op Out Params)
 
-def PairOk (s : Chain × Chain) (m : Mem) : Prop :=
-  s.1.Inv ∧ s.2.Inv ∧ s.1.abs.length + s.2.abs.length ≤ m.live
+/-- node blocks the pair holds through the triple `t` -/
+def owned (s : Chain × Chain) (t : Triple) : Nat := ownedBy s.1.triple s.2.triple s.1.abs s.2.abs t
 
+/-- both lists satisfy the representation invariant and, per allocator triple, their node blocks are live -/
+def PairOk (s : Chain × Chain) (m : Mem) : Prop :=
+  s.1.Inv ∧ s.2.Inv ∧ ∀ t, owned s t ≤ m.liveT t
+
+/-- what one step `r` guarantees relative to the ideal step -/
 def StepRefines (dbl : Bool) (P : Params) (s : Chain × Chain) (op : Op) (m : Mem)
     (r : Out × (Chain × Chain) × Mem) : Prop :=
   PairOk r.2.1 r.2.2 ∧
-  (r.1.st = some .errAlloc → r.1 = { st := some .errAlloc } ∧ r.2.1 = s ∧ r.2.2.live = m.live) ∧
+  (r.2.1.1.triple = r.2.1.2.triple ↔ s.1.triple = s.2.triple) ∧
+  (r.1.st = some .errAlloc → r.1 = { st := some .errAlloc } ∧ r.2.1 = s ∧ ∀ t, r.2.2.liveT t = m.liveT t) ∧
   (r.1.st ≠ some .errAlloc → (r.1, (r.2.1.1.abs, r.2.1.2.abs)) = LSeq.step dbl P (s.1.abs, s.2.abs) op) ∧
-  r.2.2.fault = m.fault ∧ r.2.2.libc = m.libc ∧
-  r.2.2.live + (s.1.abs.length + s.2.abs.length) = m.live + (r.2.1.1.abs.length + r.2.1.2.abs.length) ∧
-  (m.sched = [] → r.2.2.sched = [] ∧ r.1.st ≠ some .errAlloc)
+  r.2.2.fault = m.fault ∧ Mem.Frame s.1.triple m r.2.2 ∧
+  (∀ t, r.2.2.liveT t + owned s t = m.liveT t + owned r.2.1 t) ∧
+  (m.sched = [] → r.2.2.sched = [] ∧ r.1.st ≠ some .errAlloc) ∧
+  (r.1.st = some .errAlloc ↔ m.nrefused < r.2.2.nrefused)
+
+theorem stepRefines_of_stepOk {dbl : Bool} {P : Params} {s : Chain × Chain} {op : Op} {m : Mem}
+    {r : Out × (Chain × Chain) × Mem} {a' b' : List Nat} {t1' t2' : Triple} (h : PairOk s m)
+    (ok : StepOk dbl P s.1.triple s.2.triple s.1.abs s.2.abs op m r a' b' t1' t2') : StepRefines dbl P s op m r := by
+  have hs : s = (ofList s.1.triple s.1.abs, ofList s.2.triple s.2.abs) := by rw [← h.1.eq, ← h.2.1.eq]
+  have hst := ok.state
+  have e1 : r.2.1.1.abs = a' := by rw [hst]; rfl
+  have e2 : r.2.1.2.abs = b' := by rw [hst]; rfl
+  have e3 : r.2.1.1.triple = t1' := by rw [hst]; rfl
+  have e4 : r.2.1.2.triple = t2' := by rw [hst]; rfl
+  have hown : ∀ t, owned r.2.1 t = ownedBy t1' t2' a' b' t := by intro t; simp only [owned, e1, e2, e3, e4]
+  refine ⟨⟨?_, ?_, ?_⟩, ?_, ?_, ?_, ok.fault, ok.frame, ?_, ok.nosched, ok.refused_iff⟩
+  · rw [hst]; exact ofList_inv _
+  · rw [hst]; exact ofList_inv _
+  · intro t; rw [hown]; have := ok.ledger t; have := h.2.2 t; simp only [owned] at *; omega
+  · rw [e3, e4]; rcases ok.triples with ⟨a, b⟩ | ⟨a, b⟩ <;> rw [a, b]; exact eq_comm
+  · intro he
+    obtain ⟨ha, hb, ht1, ht2, ho⟩ := ok.atomic he
+    refine ⟨ho, ?_, ?_⟩
+    · rw [hst, ha, hb, ht1, ht2]; exact hs.symm
+    · intro t; have := ok.ledger t; rw [ha, hb, ht1, ht2] at this; omega
+  · intro he; rw [e1, e2]; exact ok.refines he
+  · intro t; rw [hown]; exact ok.ledger t
 
 abbrev StepFn := Chain × Chain → Op → Mem → Out × (Chain × Chain) × Mem
 
@@ -37,53 +69,90 @@ theorem slist_run_eq (P : Params) (s : Chain × Chain) (ops : List Op) (m : Mem)
   | nil => rfl
   | cons op ops ih => simp only [SList.run, runWith, ih]
 
+/-- `splice`/`splice_at` move the nodes themselves: a history may use them only between lists on the
+same allocator triple (the documented contract of this model; across triples the destination would
+later release blocks through a triple that never handed them out) -/
+def isSplice : Op → Bool
+  | .splice => true
+  | .spliceAt _ => true
+  | _ => false
+def Compat (s : Chain × Chain) (ops : List Op) : Prop :=
+  s.1.triple = s.2.triple ∨ ∀ op, op ∈ ops → isSplice op = false
+
+theorem Compat.spliceOk {s : Chain × Chain} {op : Op} {ops : List Op} (h : Compat s (op :: ops)) :
+    SpliceOk s.1.triple s.2.triple op := by
+  intro hsp
+  rcases h with h | h
+  · exact h
+  · have := h op List.mem_cons_self
+    rcases hsp with e | ⟨i, e⟩ <;> (subst e; simp [isSplice] at this)
+
+theorem Compat.tail {s s' : Chain × Chain} {op : Op} {ops : List Op} (h : Compat s (op :: ops))
+    (ht : s'.1.triple = s'.2.triple ↔ s.1.triple = s.2.triple) : Compat s' ops := by
+  rcases h with h | h
+  · exact Or.inl (ht.2 h)
+  · exact Or.inr (fun o ho => h o (List.mem_cons_of_mem _ ho))
+
 variable {dbl : Bool} {P : Params} {f : StepFn}
 
 /-- histories under an arbitrary refusal schedule: the model behaves like the ideal lists on
 which the refused operations did not happen -/
-theorem run_skipping (hf : ∀ s op m, PairOk s m → StepRefines dbl P s op m (f s op m)) :
-    ∀ (ops : List Op) (s : Chain × Chain) (m : Mem), PairOk s m →
+theorem run_skipping (hf : ∀ s op m, PairOk s m → SpliceOk s.1.triple s.2.triple op → StepRefines dbl P s op m (f s op m)) :
+    ∀ (ops : List Op) (s : Chain × Chain) (m : Mem), PairOk s m → Compat s ops →
       (runWith f s ops m).1 = (LSeq.runSkipping dbl P (s.1.abs, s.2.abs) ops ((runWith f s ops m).1.map (·.st))).1 ∧
       ((runWith f s ops m).2.1.1.abs, (runWith f s ops m).2.1.2.abs) =
         (LSeq.runSkipping dbl P (s.1.abs, s.2.abs) ops ((runWith f s ops m).1.map (·.st))).2 ∧
       PairOk (runWith f s ops m).2.1 (runWith f s ops m).2.2 ∧
-      (runWith f s ops m).2.2.fault = m.fault ∧ (runWith f s ops m).2.2.libc = m.libc
-  | [], s, m, h => ⟨rfl, rfl, h, rfl, rfl⟩
-  | op :: ops, s, m, h => by
-    obtain ⟨h1, h2, h3, h4, h5, _, _⟩ := hf s op m h
-    have ih := run_skipping hf ops (f s op m).2.1 (f s op m).2.2 h1
+      (runWith f s ops m).2.2.fault = m.fault
+  | [], s, m, h, _ => ⟨rfl, rfl, h, rfl⟩
+  | op :: ops, s, m, h, hc => by
+    obtain ⟨h1, ht, h2, h3, h4, _, _, _, _⟩ := hf s op m h hc.spliceOk
+    have ih := run_skipping hf ops (f s op m).2.1 (f s op m).2.2 h1 (hc.tail ht)
     simp only [runWith, List.map_cons, LSeq.runSkipping]
     by_cases he : (f s op m).1.st = some .errAlloc
     · obtain ⟨e1, e2, _⟩ := h2 he
       rw [if_pos he]
       have ea : ((f s op m).2.1.1.abs, (f s op m).2.1.2.abs) = (s.1.abs, s.2.abs) := by rw [e2]
       rw [ea] at ih
-      refine ⟨?_, ih.2.1, ih.2.2.1, by rw [ih.2.2.2.1, h4], by rw [ih.2.2.2.2, h5]⟩
+      refine ⟨?_, ih.2.1, ih.2.2.1, by rw [ih.2.2.2, h4]⟩
       simp only []; rw [← ih.1, ← e1]
     · have e := h3 he
       rw [if_neg he]
       have e1 : (LSeq.step dbl P (s.1.abs, s.2.abs) op).1 = (f s op m).1 := by rw [← e]
       have e2 : (LSeq.step dbl P (s.1.abs, s.2.abs) op).2 = ((f s op m).2.1.1.abs, (f s op m).2.1.2.abs) := by rw [← e]
       simp only [e1, e2]
-      exact ⟨by rw [← ih.1], ih.2.1, ih.2.2.1, by rw [ih.2.2.2.1, h4], by rw [ih.2.2.2.2, h5]⟩
+      exact ⟨by rw [← ih.1], ih.2.1, ih.2.2.1, by rw [ih.2.2.2, h4]⟩
 
 /-- histories with an allocator that never refuses: exactly the ideal lists -/
-theorem run_exact (hf : ∀ s op m, PairOk s m → StepRefines dbl P s op m (f s op m)) :
-    ∀ (ops : List Op) (s : Chain × Chain) (m : Mem), PairOk s m → m.sched = [] →
+theorem run_exact (hf : ∀ s op m, PairOk s m → SpliceOk s.1.triple s.2.triple op → StepRefines dbl P s op m (f s op m)) :
+    ∀ (ops : List Op) (s : Chain × Chain) (m : Mem), PairOk s m → Compat s ops → m.sched = [] →
       (runWith f s ops m).1 = (LSeq.run dbl P (s.1.abs, s.2.abs) ops).1 ∧
       ((runWith f s ops m).2.1.1.abs, (runWith f s ops m).2.1.2.abs) = (LSeq.run dbl P (s.1.abs, s.2.abs) ops).2 ∧
       PairOk (runWith f s ops m).2.1 (runWith f s ops m).2.2 ∧
-      (runWith f s ops m).2.2.fault = m.fault ∧ (runWith f s ops m).2.2.libc = m.libc ∧
-      (runWith f s ops m).2.2.sched = []
-  | [], s, m, h, hs => ⟨rfl, rfl, h, rfl, rfl, hs⟩
-  | op :: ops, s, m, h, hs => by
-    obtain ⟨h1, _, h3, h4, h5, _, h7⟩ := hf s op m h
+      (runWith f s ops m).2.2.fault = m.fault ∧ (runWith f s ops m).2.2.sched = []
+  | [], s, m, h, _, hs => ⟨rfl, rfl, h, rfl, hs⟩
+  | op :: ops, s, m, h, hc, hs => by
+    obtain ⟨h1, ht, _, h3, h4, _, _, h7, _⟩ := hf s op m h hc.spliceOk
     obtain ⟨hs', hne⟩ := h7 hs
-    have ih := run_exact hf ops (f s op m).2.1 (f s op m).2.2 h1 hs'
+    have ih := run_exact hf ops (f s op m).2.1 (f s op m).2.2 h1 (hc.tail ht) hs'
     have e := h3 hne
     have e1 : (LSeq.step dbl P (s.1.abs, s.2.abs) op).1 = (f s op m).1 := by rw [← e]
     have e2 : (LSeq.step dbl P (s.1.abs, s.2.abs) op).2 = ((f s op m).2.1.1.abs, (f s op m).2.1.2.abs) := by rw [← e]
     simp only [runWith, LSeq.run, e1, e2]
-    exact ⟨by rw [← ih.1], ih.2.1, ih.2.2.1, by rw [ih.2.2.2.1, h4], by rw [ih.2.2.2.2.1, h5], ih.2.2.2.2.2⟩
+    exact ⟨by rw [← ih.1], ih.2.1, ih.2.2.1, by rw [ih.2.2.2.1, h4], ih.2.2.2.2⟩
+
+/-- ledger balance of a whole history, per allocator triple -/
+theorem run_ledger (hf : ∀ s op m, PairOk s m → SpliceOk s.1.triple s.2.triple op → StepRefines dbl P s op m (f s op m)) :
+    ∀ (ops : List Op) (s : Chain × Chain) (m : Mem), PairOk s m → Compat s ops →
+      ∀ t, (runWith f s ops m).2.2.liveT t + owned s t = m.liveT t + owned (runWith f s ops m).2.1 t
+  | [], _, _, _, _ => fun _ => rfl
+  | op :: ops, s, m, h, hc => by
+    obtain ⟨h1, ht, _, _, _, _, h6, _, _⟩ := hf s op m h hc.spliceOk
+    have ih := run_ledger hf ops (f s op m).2.1 (f s op m).2.2 h1 (hc.tail ht)
+    intro t
+    have a := ih t
+    have b := h6 t
+    simp only [runWith]
+    omega
 
 end CC.ListHistory
